@@ -563,6 +563,8 @@ IndexTerms ==
    B_("prod", X_(F_(6), <<i1, i2>>), X_(F_(7), <<i1, i2>>)),                            \* A[i,j] B[i,j]
    B_("prod", X_(F_(6), <<i1, i2>>), X_(F_(6), <<i2, i1>>)),                            \* A[i,j] A[j,i]
    B_("prod", X_(F_(6), <<i1, 0>>), X_(F_(4), <<i1>>)),                                 \* A[i,0] u[i]
+   B_("prod", X_(F_(6), <<i1, 0>>), X_(F_(6), <<0, i1>>)),                              \* A[i,0] A[0,i]  (a free index next to
+   B_("prod", X_(F_(6), <<i1, 1>>), X_(F_(6), <<1, i1>>)),                              \* A[i,1] A[1,i]   the fixed indices 0 and 1)
    B_("prod", B_("prod", X_(F_(6), <<i1, i2>>), X_(F_(4), <<i1>>)), X_(F_(5), <<i2>>)), \* A[i,j] u[i] w[j]
    B_("prod", B_("prod", X_(F_(6), <<i1, i2>>), X_(F_(4), <<i1>>)), X_(F_(4), <<i2>>)), \* A[i,j] u[i] u[j]
    B_("sum", B_("prod", X_(F_(4), <<i1>>), X_(F_(5), <<i1>>)), X_(F_(6), <<i2, i2>>)),  \* u[i] w[i] + A[j,j]
